@@ -51,18 +51,22 @@ def _regexes(prog):
     for c in calls_in(p.node):
         if isinstance(c.func, ast.Attribute) and c.func.attr in ("match", "fullmatch"):
             base = c.func.value
-            if isinstance(base, ast.Call):
+            comp = []
+            if isinstance(base, ast.Call) and dotted(base.func) == "re.compile":
+                comp = [base]                                  # re.compile(<literal>).match(fmt) written in place (or a module constant, inlined at load)
+            elif isinstance(base, ast.Call):
                 q = prog.resolve_call(p, base)
                 if q in prog.funcs:
-                    for n in ast.walk(prog.funcs[q].node):
-                        if isinstance(n, ast.Call) and dotted(n.func) == "re.compile" and n.args and const_str(n.args[0]) is not None:
-                            flags = 0
-                            for a in list(n.args[1:]) + [k.value for k in n.keywords]:
-                                if dotted(a) in ("re.I", "re.IGNORECASE"):
-                                    flags |= re.I
-                            kind = "fxp" if "fxp" in const_str(n.args[0]) else "q"
-                            pats[kind] = (const_str(n.args[0]), flags, c.func.attr, n)
-                            order.append(kind)
+                    comp = [n for n in ast.walk(prog.funcs[q].node) if isinstance(n, ast.Call) and dotted(n.func) == "re.compile"]
+            for n in comp:
+                if n.args and const_str(n.args[0]) is not None:
+                    flags = 0
+                    for a in list(n.args[1:]) + [k.value for k in n.keywords]:
+                        if dotted(a) in ("re.I", "re.IGNORECASE"):
+                            flags |= re.I
+                    kind = "fxp" if "fxp" in const_str(n.args[0]) else "q"
+                    pats[kind] = (const_str(n.args[0]), flags, c.func.attr, n)
+                    order.append(kind)
     return p, pats, order
 
 
@@ -136,7 +140,7 @@ def language_rules(ck, rule_incl, rule_inv):
         kind = "fxp" if tpl.casefold().startswith("fxp") else "q"
         w = RL.build(wpat, ALPHABET)
         okinc, wit = RL.included(w, nfa[kind], ALPHABET)
-        ck.check(okinc, rule_incl, f, "every dtype string the %s writer can produce is accepted by the %s reader (language inclusion, all n_word >= 1, n_frac in Z incl. negative%s)" % (kind, kind, ", complex suffix" if "comp" in fields else ""),
+        ck.check(okinc, rule_incl, f, "every dtype string the %s writer can produce is accepted by the %s reader (language inclusion, all n_word >= 1, n_frac in Z incl. negative%s)" % (kind, kind, ", complex suffix" if len(fields) > 3 else ""),
                  "writer %r produces %r which reader %r rejects" % (tpl, wit, pats[kind][0]), node,
                  "constructing or resizing with dtype=x.dtype fails or mis-parses for that format")
         if kind == "fxp":
@@ -169,9 +173,11 @@ def _inverse(ck, rule, prog, f, temps, p):
         if not isinstance(tpl, str) or not fields:
             continue
         sg_path = _signed_on_path(pguards)
+        order = [fld for _, fld, _, _ in string.Formatter().parse(tpl) if fld]
+        F = [fields.get(o) for o in order]          # fields by position in the template: the names are the author's choice
         if tpl.casefold().startswith("fxp"):
-            okw = dotted(fields.get("nword")) == "self.n_word" and dotted(fields.get("nfrac")) == "self.n_frac"
-            sgn = fields.get("sign")
+            sgn = F[0] if len(F) > 0 else None
+            okw = len(F) >= 3 and dotted(F[1]) == "self.n_word" and dotted(F[2]) == "self.n_frac"
             if const_str(sgn) is not None and sg_path is not None:
                 fxp_letters[sg_path] = const_str(sgn)
                 oks = True
@@ -179,16 +185,18 @@ def _inverse(ck, rule, prog, f, temps, p):
                 oks = isinstance(sgn, ast.IfExp) and dotted(sgn.test) == "self.signed" and const_str(sgn.body) == "s" and const_str(sgn.orelse) == "u"
                 if oks:
                     fxp_letters[True], fxp_letters[False] = "s", "u"
-            ck.check(okw and oks, rule, f, "fxp template spells sign, n_word, n_frac from the object's own fields", "fields %s" % {k: src(v)[:30] for k, v in fields.items()}, node,
+            ck.check(okw and oks, rule, f, "fxp template spells sign, n_word, n_frac (in this order) from the object's own fields", "fields %s" % [src(v)[:30] if v is not None else None for v in F], node,
                      "the dtype string names another format than the object's")
-            order = [fld for _, fld, _, _ in string.Formatter().parse(tpl) if fld]
-            ck.check(order[:3] == ["sign", "nword", "nfrac"], rule, f, "fxp template field order is sign, word, fraction", "order %s" % order, node)
-            if "comp" in fields:
-                c = fields["comp"]
+            if len(F) > 3:
+                c = F[3]
                 okc = (isinstance(c, ast.IfExp) and const_str(c.body) == "-complex" and const_str(c.orelse) == "") or const_str(c) in ("-complex", "")
                 ck.check(okc, rule, f, "complex objects get the '-complex' suffix (and only they)", "comp=%s" % src(c)[:60], node)
         else:
-            q = fields.get("Q")
+            q = F[0] if F else None
+            if len(F) < 3:
+                ck.unsure(rule, f, "Q template fields are terms", node, "template %r has %d fields" % (tpl, len(F)))
+                continue
+            fields = dict(fields, nint=F[1], nfrac=F[2])
             try:
                 nint = mkterm(fields["nint"]).subst({("v", "n_int"): Term.var("n_word") - Term.var("n_frac") - Term.bvar("signed")}).subst(guard_assignment(pguards))
                 nfrac = mkterm(fields["nfrac"])
@@ -350,7 +358,7 @@ def notation_parameter(ck, rule):
         if not sts:
             continue
         v = sts[-1].value
-        isq = isinstance(v, ast.Call) and isinstance(v.func, ast.Attribute) and v.func.attr == "format" and const_str(v.func.value) is not None and "Q" in const_str(v.func.value)
+        isq = isinstance(v, ast.Call) and isinstance(v.func, ast.Attribute) and v.func.attr == "format" and const_str(v.func.value) is not None and not const_str(v.func.value).casefold().startswith("fxp")
         given = [x for x in pf.guards if x[2] is not None and src(x[2]) == "%s is None" % up]
         if isq:
             q_paths += 1
